@@ -2,6 +2,8 @@
 # Applies each behaviour-preserving patch under /verif/refactorings to /repo, runs every
 # check at a reduced quick budget, records exit codes, and undoes the patch.  Any exit 1
 # here is a FALSE ALARM of the machinery (the patches keep every property true).
+# runs against patched trees must not leave their evidence behind
+EVSAVE=/tmp/ev.save.$$; rm -rf "$EVSAVE"; cp -r /verif/evidence "$EVSAVE"; trap 'rm -rf /verif/evidence; mv "$EVSAVE" /verif/evidence' EXIT
 cd /verif || exit 2
 OUT=/verif/refactorings/results.txt; : > "$OUT"
 for p in refactorings/R*.diff; do
